@@ -152,6 +152,17 @@ func (tr *trans) guardInstr(in ssa.Instruction, st State) {
 	case *ssa.MapUpdate:
 		if gi, base, f, ok := tr.guardedOrigin(x.Map); ok {
 			tr.guardAccess(gi, base, true, f+"[]", st, x.Pos())
+			for _, kf := range gi.g.Keeping {
+				if kf == f && tr.fc.Opts["may_replace"] != f {
+					// guarantee: an existing entry is not replaced by a different value
+					mt := x.Map.Type().Underlying().(*types.Map)
+					m, k, v := tr.val(x.Map), tr.val(x.Key), tr.val(x.Value)
+					dom := sel(sel(tr.getState(st, tr.mapHeap(mt, "dom")), m), k)
+					cur := sel(sel(tr.getState(st, tr.mapHeap(mt, "val")), m), k)
+					fresh := app(">=", base, tr.getState(tr.entry, "$next"))
+					tr.oblige("guard", fmt.Sprintf("keep:%s:`%s`", f, tr.srcText(x.Pos())), implies(tr.reach[tr.curB.Index], or(fresh, eq(m, "0"), not(dom), eq(cur, v))), x.Pos())
+				}
+			}
 		}
 	case *ssa.Lookup:
 		if gi, base, f, ok := tr.guardedOrigin(x.X); ok {
@@ -212,6 +223,17 @@ func (tr *trans) acquired(c *ssa.CallCommon, st State) {
 				ft := s.Field(j).Type()
 				h := tr.structHeap(pt.Elem(), j)
 				old := sel(tr.getState(st, h), base)
+				keeps := false
+				for _, kf := range g.Keeping {
+					if kf == fname {
+						keeps = true
+					}
+				}
+				var dom0, val0 Term
+				if mt, isMap := ft.Underlying().(*types.Map); isMap && keeps {
+					dom0 = sel(tr.getState(st, tr.mapHeap(mt, "dom")), old)
+					val0 = sel(tr.getState(st, tr.mapHeap(mt, "val")), old)
+				}
 				// content of a guarded map: arbitrary as well (same map object, changed in place)
 				if mt, isMap := ft.Underlying().(*types.Map); isMap {
 					for _, part := range []string{"dom", "val", "len"} {
@@ -230,6 +252,14 @@ func (tr *trans) acquired(c *ssa.CallCommon, st State) {
 				tr.shared(h)
 				if inv := tr.typeInv(nv, ft, st, 0); inv != "true" {
 					tr.vc.assume(inv)
+				}
+				if mt, isMap := ft.Underlying().(*types.Map); isMap && keeps {
+					// rely: whoever held the lock in between added or removed entries but replaced none
+					ks := tr.vc.sortOf(mt.Key())
+					dom1 := sel(tr.getState(st, tr.mapHeap(mt, "dom")), nv)
+					val1 := sel(tr.getState(st, tr.mapHeap(mt, "val")), nv)
+					tr.vc.assume(fmt.Sprintf("(forall ((k %s)) (! (=> (and (select %s k) (select %s k)) (= (select %s k) (select %s k))) :pattern ((select %s k))))", ks, dom0, dom1, val1, val0, val1))
+					tr.note(fmt.Sprintf("rely: entries of %s.%s are added and removed by other goroutines, never replaced (every write under contract is checked against the same rule)", g.Type, fname))
 				}
 			}
 		}
